@@ -92,8 +92,8 @@ func init() {
 			if r.Chance(20) {
 				npool = 100 + r.Intn(200)
 			}
-			if big && r.Chance(10) {
-				npool = 2000 + r.Intn(3000)
+			if big && r.Chance(3) {
+				npool = 600 + r.Intn(900)
 			}
 			store.Conf.SplitCap = int64(npool + 8)
 			type pk struct {
